@@ -1,6 +1,6 @@
 """Configuration of ./check C15 (see cfg/README)."""
 
-PROP = {'modules': ['SfntV.Props.C15'],
+PROP = {'drive': ['Layout'], 'modules': ['SfntV.Props.C15'],
  'required_theorems': ['C15_findlookups',
                        'C15_findlookups_total',
                        'C15_findlookups_maporder',
@@ -64,7 +64,8 @@ LEVEL = {'text': 'Proof: for every feature list, language system, switch map and
          'kern.Read on generated and mutated tables, standardLigatures through a hook, full Layout on Go '
          'Regular/Go Mono files with swapped cmap/kern tables) and by evaluating the postcondition, the '
          'kern specification, the 200-call determinism check and the trivial-case predicate on outputs of '
-         'the real code.',
+         'the real code; the kern specification is additionally compared with golang.org/x/image/font/sfnt '
+         'Kern on single-subtable tables (layout.kern.ximage).',
  'note': 'Trusted: Lean kernel + 3 standard axioms; hand-written models mirror lookup.go, kern.go, '
          'ligatures.go, layout.go as checked by sampled correspondence; the kern specification is my reading '
          'of the OpenType kern chapter; default feature sets, kern masks, the ligature list and the '
